@@ -116,10 +116,12 @@ func c08Op(t []string) string {
 	case "bp":
 		fs = afero.NewBasePathFs(m, root)
 	case "nest":
-		// root = outer + "|" + inner; confinement region is Join(outer, inner)
+		// root = outer + "|" + inner. The inner fs hands Clean(Join(inner, name)) to the outer one, which
+		// prepends its own root: the region is the inner root re-rooted under the outer root, and in
+		// particular never leaves the outer root, however the inner root is spelled ("/../x")
 		parts := strings.SplitN(root, "|", 2)
 		fs = afero.NewBasePathFs(afero.NewBasePathFs(m, parts[0]), parts[1])
-		croot = filepath.Join(parts[0], parts[1])
+		croot = filepath.Join(parts[0], filepath.Clean("/"+parts[1]))
 	case "sub":
 		sub, _ := afero.NewIOFS(m).Sub(root)
 		fs = afero.FromIOFS{FS: sub}
@@ -133,6 +135,13 @@ func c08Op(t []string) string {
 		}
 	}
 	before := outsideSnapshot(m, croot)
+	insideNames := map[string]bool{}
+	afero.Walk(m, "/", func(p string, fi os.FileInfo, err error) error {
+		if err == nil && p != croot && strings.HasPrefix(p, strings.TrimSuffix(croot, "/")+"/") {
+			insideNames[filepath.Base(p)] = true
+		}
+		return nil
+	})
 	var got bytes.Buffer
 	res := "ok"
 	readAll := func(f afero.File) {
@@ -243,20 +252,49 @@ func c08Op(t []string) string {
 		res = errClass(err)
 	}
 	leak := ""
-	if strings.Contains(got.String(), canary) {
-		leak += " LEAK:read-outside"
+	inRegion := func(p string) bool { return p == croot || strings.HasPrefix(p, strings.TrimSuffix(croot, "/")+"/") }
+	for k, p := range []string{"/basement/secret", "/basement/sub/x", "/other/secret", "/secret", "/base.txt"} {
+		if !inRegion(p) && strings.Contains(got.String(), fmt.Sprintf("%s%d", canary, k+1)) {
+			leak += " LEAK:read-outside"
+		}
 	}
 	for _, n := range []string{"basement", "secret", "other", "base.txt"} {
+		if insideNames[n] {
+			continue // the region itself has an entry of that name
+		}
 		for _, el := range strings.Split(got.String(), ",") {
 			if el == n {
 				leak += " LEAK:listed-outside(" + n + ")"
 			}
 		}
 	}
-	if after := outsideSnapshot(m, croot); after != before {
+	if d := outsideChanged(before, outsideSnapshot(m, croot)); d != "" {
 		leak += " LEAK:modified-outside"
 	}
 	return res + leak
+}
+
+// outsideChanged compares two outside snapshots. An ancestor directory of the root that comes into
+// existence is not a change outside: MemMapFs creates missing parents of whatever it creates, so the
+// first entry made inside a not-yet-existing root brings the root and its ancestors with it.
+func outsideChanged(before, after string) string {
+	b := map[string]bool{}
+	for _, l := range strings.Split(before, "\n") {
+		b[l] = true
+	}
+	a := map[string]bool{}
+	for _, l := range strings.Split(after, "\n") {
+		a[l] = true
+		if !b[l] && !strings.Contains(l, " anc ") {
+			return "new or changed: " + l
+		}
+	}
+	for l := range b {
+		if !a[l] {
+			return "gone or changed: " + l
+		}
+	}
+	return ""
 }
 
 func c08RunImpl(c corr.Case) []string {
@@ -454,6 +492,7 @@ func c08Exhaustive(tier string) []corr.Case {
 	opNames := spellings([]string{".", "..", "basement", "sub", "secret", "in.txt"}, opSeg)
 	opRoots := []struct{ kind, root string }{
 		{"bp", "/base"}, {"bp", "/base/"}, {"bp", "/base/sub/.."}, {"nest", "/|base"}, {"nest", "/base|sub"},
+		{"nest", "/base|/../basement"}, {"nest", "/base|../other"}, {"nest", "/base/sub|deep/../../../basement"},
 		{"http", "/base"}, {"sub", "/base"},
 	}
 	for _, r := range opRoots {
@@ -516,8 +555,11 @@ func c08Random(r *corr.Rand, tier string) []corr.Case {
 			case 2:
 				lines = append(lines, "realpath "+corr.HexS(root)+" "+corr.HexS(name), "httppath "+corr.HexS(root)+" "+corr.HexS(name))
 			default:
-				kind := corr.Pick(rr, []string{"bp", "bp", "http", "sub"})
+				kind := corr.Pick(rr, []string{"bp", "bp", "http", "sub", "nest"})
 				rt := corr.Pick(rr, []string{"/base", "/base/", "/base/sub", "/base/./sub/.."})
+				if kind == "nest" {
+					rt = corr.Pick(rr, []string{"/base", "/base/sub", "/"}) + "|" + corr.Pick(rr, []string{"sub", "/../basement", "../other", "/..", "deep/../../..", strings.ReplaceAll(mk(), "|", "")})
+				}
 				m := corr.Pick(rr, c08Methods)
 				if kind == "http" {
 					m = "open"
@@ -525,8 +567,8 @@ func c08Random(r *corr.Rand, tier string) []corr.Case {
 				if kind == "sub" {
 					m = corr.Pick(rr, []string{"stat", "open", "readfile", "readdir"})
 				}
-				if rr.Chance(15) && kind == "bp" {
-					lines = append(lines, fmt.Sprintf("op bp %s rename %s %s", corr.HexS(rt), corr.HexS(name), corr.HexS(mk())))
+				if rr.Chance(15) && (kind == "bp" || kind == "nest") {
+					lines = append(lines, fmt.Sprintf("op %s %s rename %s %s", kind, corr.HexS(rt), corr.HexS(name), corr.HexS(mk())))
 				} else {
 					lines = append(lines, fmt.Sprintf("op %s %s %s %s", kind, corr.HexS(rt), m, corr.HexS(name)))
 				}
